@@ -328,7 +328,7 @@ def _check_sorted(env: Any, s: Any, tag: str) -> List[str]:
 def check_step(env: Any, s: Any, a: Any, s2: Any, ts: Any) -> List[str]:
     k, i = int(a[0]), int(a[1])
     if not action_legal(env, s, a):
-        return _check_rejected(env, s, a, s2, ts, "step-illegal-action")
+        return _check_rejected(env, s, a, s2, ts, "step-illegal-action") + _check_sorted(env, s2, "step")
     out: List[str] = []
     e = _space_arrays(s.ems)[int(np.asarray(s.sorted_ems_indexes)[k])]
     exp_placed = np.asarray(s.items_placed, bool).copy()
